@@ -291,10 +291,10 @@ def check(cx):
     reply_cond(cx, r5, ireps, 'ErrChanOpPrivsNeeded482', And(exists, member, inv_only, Not(actor_op)), fi, 'process_invite')
     reply_cond(cx, r5, ireps, 'ErrUserOnChannel443', And(exists, member, Or(Not(inv_only), actor_op), on_chan), fi, 'process_invite')
     reply_cond(cx, r5, ireps, 'ErrNoSuchNick401', And(D, Not(uexists)), fi, 'process_invite')
-    # "grants one admission": the recorded invitation is used up by the JOIN it admits and by nothing else (C07's life cycle of
-    # User.invited_to; only the keys that talk about the invitation are imported)
-    depends(cx, r5, 'C07', ('R7.3', 'R7.4'), 'an invitation is used up by the admitted JOIN and by no refused one',
-            only=r'invited_to|consume-invitation')
+    # "grants one admission": the recorded invitation is used up by the JOIN that enters the user into the channel and by nothing else
+    # (relative to the handler's own admission decision; whether that decision is right is C07's business)
+    from .C07 import rule_invitation_relative
+    rule_invitation_relative(cx, r5)
 
 
 def _set_typed(prog, node):
